@@ -407,6 +407,10 @@ structure Cfg where
   statusCatch : List String         -- psutil.Process.status
   exeCatch : List String            -- psutil.Process.exe, around _proc.exe()
   exeGuessCatch : List String       -- psutil.Process.exe, around guess_it(fallback=exe)
+  guessClauses : List (List String × String)   -- exe()'s helper guess_it(fallback): the handlers around `self.cmdline()`
+                                    -- ([] = no try, the source as it is): classes ↦ "return fallback" | "raise fallback" | "raise"
+  guessTailRaises : Bool            -- guess_it ends with `if isinstance(fallback, AccessDenied): raise fallback` before
+                                    -- `return fallback` (false: the AccessDenied INSTANCE caught by exe() is handed back as a value)
   wrapped : List String             -- _pslinux.Process methods carrying @wrap_exceptions
   memoized : List String            -- _pslinux.Process methods carrying @memoize_when_activated
   feMemoized : List String          -- psutil.Process methods carrying @memoize_when_activated
@@ -797,9 +801,19 @@ inductive Val
   | none | int | float | str | estr | bool (b : Bool)
   | tuple (n : Nat) | list (n : Nat) | dict
   | proc (pid : Nat) | procs (pids : List Nat)
-  | asdict (n : Nat) (ad : List String)                 -- number of keys; names that got ad_value
-  | iter (l : List (Nat × Nat × List String))           -- process_iter: (pid, keys, ad names)
+  | asdict (n : Nat) (ad : List String) (bad : List String)   -- number of keys; names that got ad_value; names whose
+                                                              -- stored value is an exception OBJECT
+  | iter (l : List (Nat × Nat × List String × List String))   -- process_iter: (pid, keys, ad names, exception-object names)
+  | exc (e : PyExc)                                     -- an exception INSTANCE handed back as the call's return value
+                                                        -- (`except X as err: … return err`): never a documented result
+  | other                                               -- an object of any other type (only the implementation's side:
+                                                        -- the harness reports it for a value of no documented shape)
   deriving DecidableEq, Repr
+
+/-- the value is an exception object -/
+def Val.isExc : Val → Bool
+  | .exc _ => true
+  | _ => false
 
 /-- a front-end Process object: pid and the `_create_time` cached at construction -/
 structure Obj where
@@ -875,13 +889,29 @@ def name (o : Obj) : M Val := do
     pure .str
   else pure .str
 
-/-- guess_it(fallback) of exe(): fallback = none stands for the AccessDenied instance -/
+/-- guess_it(fallback) of exe(): fallback = none stands for the AccessDenied INSTANCE that exe() caught (`except
+    AccessDenied as err: return guess_it(fallback=err)`), as an object `.exc (.ad pid)`. The handlers around
+    `self.cmdline()` (`cfg.guessClauses`, none in the source as it is) and the tail (`cfg.guessTailRaises`) are
+    interpreted from the translator's facts: a clause that ends in `return fallback`, or a tail that does not re-raise,
+    makes the helper — and so exe(), as_dict(), process_iter() — RETURN the exception object. -/
 def guessIt (o : Obj) (fallback : Option Val) : M Val := do
-  let (n, g) ← cmdline cfg o
-  if n > 0 && g then pure .str
-  else match fallback with
-    | none => throw (.ad o.pid)
-    | some v => pure v
+  let fbObj : Val := fallback.getD (.exc (.ad o.pid))
+  let r ← tryCatch (do let x ← cmdline cfg o; pure (some x))
+            (fun e =>
+              match clauseOf cfg.guessClauses e with
+              | some "return fallback" => some (pure none)
+              | some "raise fallback" =>
+                  some (match fallback with
+                        | none => throw (.ad o.pid)
+                        | some _ => throw .typeError)     -- `raise ''`: exceptions must derive from BaseException
+              | _ => none)
+  match r with
+  | none => pure fbObj
+  | some (n, g) =>
+    if n > 0 && g then pure .str
+    else match fallback with
+      | none => if cfg.guessTailRaises then throw (.ad o.pid) else pure fbObj
+      | some v => pure v
 
 def exe (o : Obj) : M Val :=
   tryCatch
@@ -955,17 +985,20 @@ def oneshotEnter (p : Nat) : M Bool := do
 def oneshotExit (entered : Bool) : M Unit :=
   if entered then modifyCache (fun _ => {}) else pure ()
 
-/-- the `for name in ls` loop of as_dict: (keys so far, names that got ad_value); `explicit` = the truth value of
-    `attrs` in the 2nd handler's `if attrs: raise` (False for `as_dict()` AND for `as_dict(attrs=[])`) -/
-def asDictLoop (o : Obj) (explicit : Bool) : List String → Nat → List String → M (Nat × List String)
-  | [], n, ad => pure (n, ad)
-  | nm :: rest, n, ad =>
+/-- the `for name in ls` loop of as_dict: (keys so far, names that got ad_value, names whose stored value is an
+    exception object); `explicit` = the truth value of `attrs` in the 2nd handler's `if attrs: raise` (False for
+    `as_dict()` AND for `as_dict(attrs=[])`) -/
+def asDictLoop (o : Obj) (explicit : Bool) : List String → Nat → List String → List String →
+    M (Nat × List String × List String)
+  | [], n, ad, bad => pure (n, ad, bad)
+  | nm :: rest, n, ad, bad =>
     match getter cfg o nm with
     | none => throw .typeError             -- not modelled: the driver never asks for it
     | some g => do
-      let r ← tryCatch (do let _ ← g; pure (some true))
+      -- none = the name is skipped; some none = ad_value; some (some b) = `ret = meth()` stored, b = it is an exception object
+      let r ← tryCatch (do let v ← g; pure (some (some v.isExc)))
                 (fun e =>
-                  if catches cfg.asDictCatch e then some (pure (some false))
+                  if catches cfg.asDictCatch e then some (pure (some none))
                   else if catches cfg.asDictSkipCatch e then
                     (if cfg.asDictSkipRule == "if attrs: raise; continue" then
                        (if explicit then some (throw e) else some (pure none))
@@ -973,14 +1006,14 @@ def asDictLoop (o : Obj) (explicit : Bool) : List String → Nat → List String
                      else some (throw e))
                   else none)
       match r with
-      | none => asDictLoop o explicit rest n ad
-      | some true => asDictLoop o explicit rest (n + 1) ad
-      | some false => asDictLoop o explicit rest (n + 1) (ad ++ [nm])
+      | none => asDictLoop o explicit rest n ad bad
+      | some (some b) => asDictLoop o explicit rest (n + 1) ad (if b then bad ++ [nm] else bad)
+      | some none => asDictLoop o explicit rest (n + 1) (ad ++ [nm]) bad
 
 /-- as_dict(attrs): `with self.oneshot(): …` (the `finally` of the context manager runs on errors too) -/
-def asDictOf (o : Obj) (explicit : Bool) (attrs : List String) : M (Nat × List String) := do
+def asDictOf (o : Obj) (explicit : Bool) (attrs : List String) : M (Nat × List String × List String) := do
   let entered ← oneshotEnter o.pid
-  let r ← tryCatch (do let v ← asDictLoop cfg o explicit attrs 0 []; pure (Except.ok v))
+  let r ← tryCatch (do let v ← asDictLoop cfg o explicit attrs 0 [] []; pure (Except.ok v))
             (fun e => some (pure (Except.error e)))
   oneshotExit entered
   match r with
@@ -988,12 +1021,12 @@ def asDictOf (o : Obj) (explicit : Bool) (attrs : List String) : M (Nat × List 
   | .error e => throw e
 
 /-- as_dict(attrs) with a non-empty `attrs` -/
-def asDict (o : Obj) (attrs : List String) : M (Nat × List String) := asDictOf cfg o true attrs
+def asDict (o : Obj) (attrs : List String) : M (Nat × List String × List String) := asDictOf cfg o true attrs
 
 /-- as_dict() / as_dict(attrs=None) / as_dict(attrs=[]): `ls = attrs or valid_names` = every name of
     `_as_dict_attrnames` (passed in by the caller in the iteration order of that set), and the
     NotImplementedError clause skips the name instead of re-raising -/
-def asDictAll (o : Obj) (allNames : List String) : M (Nat × List String) := asDictOf cfg o false allNames
+def asDictAll (o : Obj) (allNames : List String) : M (Nat × List String × List String) := asDictOf cfg o false allNames
 
 /-- children(recursive=False): the loop over ppid_map().items() -/
 def childrenLoop (o : Obj) : List (Nat × Nat) → M (List Nat)
@@ -1180,13 +1213,13 @@ def insertSorted (x : Nat) : List Nat → List Nat
   | y :: ys => if x ≤ y then x :: y :: ys else y :: insertSorted x ys
 
 /-- the loop of process_iter(attrs) over the sorted new pids (empty `_pmap`) -/
-def iterLoop (attrs : List String) : List Nat → M (List (Nat × Nat × List String))
+def iterLoop (attrs : List String) : List Nat → M (List (Nat × Nat × List String × List String))
   | [] => pure []
   | q :: qs => do
     let r ← tryCatch
               (do let pr ← mkProcess cfg q
-                  let (n, ad) ← asDict cfg pr attrs
-                  pure (some (q, n, ad)))
+                  let (n, ad, bad) ← asDict cfg pr attrs
+                  pure (some (q, n, ad, bad)))
               (fun e => if catches cfg.iterCatch e then some (pure none) else none)
     let more ← iterLoop attrs qs
     match r with
